@@ -285,7 +285,7 @@ func (x *gen) blendMax() (string, []float64) {
 
 var ops3Lip = []string{"leaf", "leaf", "union3", "union3", "diff3", "isect3", "cut3", "xform3", "xform3", "scale3", "offset3", "shell3",
 	"elong3", "array3", "rotcopy3", "rotunion3", "extrude", "extround", "revolve", "revolvetheta"}
-var ops3Full = append(append([]string{}, ops3Lip...), "rtv3", "nuscale3", "twist", "scaleext", "scaletwist", "loft", "screw")
+var ops3Full = append(append([]string{}, ops3Lip...), "rtv3", "nuscale3", "twist", "scaleext", "scaletwist", "loft", "screw", "multi3", "lineof3", "orient3")
 
 func (x *gen) node3(depth int) *Node {
 	if depth <= 0 {
@@ -407,6 +407,36 @@ func (x *gen) node3(depth int) *Node {
 			th = 0.1
 		}
 		return &Node{Op: "revolvetheta", K: []*Node{x.profile(depth - 1)}, P: []float64{th}}
+	case "multi3":
+		np := x.intr("npos", 1, 4)
+		var ps []float64
+		for i := 0; i < np; i++ {
+			ps = append(ps, x.coord("mx", 2), x.coord("my", 2), x.coord("mz", 2))
+		}
+		return &Node{Op: "multi3", K: []*Node{x.node3(depth - 1)}, P: ps}
+	case "lineof3":
+		pat := rapid.StringMatching("[x.]{0,3}x[x.]{0,3}").Draw(x.t, x.lbl("pattern"))
+		return &Node{Op: "lineof3", K: []*Node{x.node3(depth - 1)}, S: pat, P: []float64{x.coord("p0x", 2), x.coord("p0y", 2), x.coord("p0z", 2), x.coord("p1x", 2), x.coord("p1y", 2), x.coord("p1z", 2)}}
+	case "orient3":
+		base := x.dir3("base")
+		ps := append([]float64{}, base...)
+		nd := x.intr("ndir", 1, 3)
+		for i := 0; i < nd; i++ {
+			d := x.dir3("dir")
+			// keep every direction away from (anti)parallel to the base: the rotation is then unique
+			bl := math.Sqrt(base[0]*base[0] + base[1]*base[1] + base[2]*base[2])
+			dl := math.Sqrt(d[0]*d[0] + d[1]*d[1] + d[2]*d[2])
+			cr := cross3(vec3{base[0] / bl, base[1] / bl, base[2] / bl}, vec3{d[0] / dl, d[1] / dl, d[2] / dl})
+			if norm3(cr) < 0.05 {
+				// a perpendicular direction
+				d = []float64{base[1] - base[2], base[2] - base[0], base[0] - base[1]}
+				if math.Abs(d[0])+math.Abs(d[1])+math.Abs(d[2]) < 1e-6*bl {
+					d = []float64{base[1], -base[0], 0}
+				}
+			}
+			ps = append(ps, d...)
+		}
+		return &Node{Op: "orient3", K: []*Node{x.node3(depth - 1)}, P: ps}
 	case "screw":
 		pitch := x.length("pitch", 0.05, 0.4)
 		radius := pitch * (2 + 10*x.unit("rr"))
@@ -455,7 +485,7 @@ func (x *gen) profile(depth int) *Node {
 
 var ops2Lip = []string{"leaf", "leaf", "union2", "union2", "diff2", "isect2", "cut2", "xform2", "xform2", "scale2", "offset2", "elong2", "array2", "rotcopy2", "rotunion2"}
 var ops2Solid = []string{"leaf", "leaf", "union2", "xform2", "xform2", "scale2", "offset2", "elong2", "array2", "rotcopy2", "rotunion2"}
-var ops2Full = append(append([]string{}, ops2Lip...), "nuscale2", "slice2", "cache2", "center2", "centerscale2")
+var ops2Full = append(append([]string{}, ops2Lip...), "nuscale2", "slice2", "cache2", "center2", "centerscale2", "multi2", "lineof2")
 
 func (x *gen) node2(depth int) *Node {
 	if depth <= 0 {
@@ -543,6 +573,16 @@ func (x *gen) node2(depth int) *Node {
 	case "slice2":
 		nv := x.dir3("n")
 		return &Node{Op: "slice2", K: []*Node{x.node3(depth - 1)}, P: []float64{x.coord("ax", 0.3), x.coord("ay", 0.3), x.coord("az", 0.3), nv[0], nv[1], nv[2]}}
+	case "multi2":
+		np := x.intr("npos", 1, 4)
+		var ps []float64
+		for i := 0; i < np; i++ {
+			ps = append(ps, x.coord("mx", 2), x.coord("my", 2))
+		}
+		return &Node{Op: "multi2", K: []*Node{x.node2(depth - 1)}, P: ps}
+	case "lineof2":
+		pat := rapid.StringMatching("[x.]{0,3}x[x.]{0,3}").Draw(x.t, x.lbl("pattern"))
+		return &Node{Op: "lineof2", K: []*Node{x.node2(depth - 1)}, S: pat, P: []float64{x.coord("p0x", 2), x.coord("p0y", 2), x.coord("p1x", 2), x.coord("p1y", 2)}}
 	case "cache2":
 		return &Node{Op: "cache2", K: []*Node{x.node2(depth - 1)}}
 	case "center2":
